@@ -197,20 +197,57 @@ func (h *hookRun) param(forAdd bool) def.TaskUpdateParam {
 	return p
 }
 
-func (h *hookRun) step(faults bool) {
-	ctx := context.Background()
-	fault := faults && h.r.Intn(8) == 0
-	ft := cq.Bool(fault)
+// hop: one step of a hook history, fully determined (so that histories can be enumerated as well as drawn)
+type hop struct {
+	kind   int // 0 add 1 update 2 cancel 3 dispatch 4 start 5 stop 6 advance 7 consume
+	id     string
+	p      def.TaskUpdateParam
+	toHead bool // advance: exactly to the head's time (when it lies ahead), else by secs
+	secs   int
+	tick   bool // the clock moves by a millisecond before the operation
+	fault  bool
+}
+
+func (h *hookRun) genOp(faults bool) hop {
+	o := hop{fault: faults && h.r.Intn(8) == 0}
 	x := h.r.Intn(100)
+	o.tick = h.r.Intn(3) == 0
+	switch {
+	case x < 22:
+		o.kind, o.p = 0, h.param(true)
+	case x < 47:
+		o.kind, o.id, o.p = 1, h.pickId(), h.param(false)
+	case x < 57:
+		o.kind, o.id = 2, h.pickId()
+	case x < 65:
+		o.kind, o.id = 3, h.pickId()
+	case x < 73:
+		o.kind = 4
+	case x < 78:
+		o.kind = 5
+	case x < 88:
+		o.kind, o.toHead, o.secs = 6, h.r.Intn(3) != 0, 1+h.r.Intn(40)
+	default:
+		o.kind = 7
+	}
+	return o
+}
+
+func (h *hookRun) step(faults bool) { h.apply(h.genOp(faults)) }
+
+func (h *hookRun) apply(o hop) {
+	ctx := context.Background()
+	fault := o.fault
+	ft := cq.Bool(fault)
 	// clock moves a little between operations (equal readings are common)
-	if h.r.Intn(3) == 0 {
+	if o.tick {
 		h.now = h.now.Add(time.Millisecond)
 		h.clock.Set(h.now)
 	}
 	nowT := cq.Time(h.now)
-	switch {
-	case x < 22:
-		p := h.param(true)
+	switch o.kind {
+	case 0:
+		p := o.p
 		fresh := fmt.Sprintf("t%d", h.idCtr+1)
 		h.faulty.failNext = fault
 		t, err := h.obs.AddTask(ctx, p)
@@ -219,41 +256,40 @@ func (h *hookRun) step(faults bool) {
 			h.known = append(h.known, t.Id)
 		}
 		h.emit("HAdd "+ft+" "+nowT+" "+cq.Str(fresh)+" "+cq.UParam(p), taskRes(t, err))
-	case x < 47:
-		id := h.pickId()
-		p := h.param(false)
+	case 1:
+		id, p := o.id, o.p
 		h.faulty.failNext = fault
 		err := h.obs.UpdateById(ctx, id, p)
 		h.faulty.failNext = false
 		h.emit("HUpdate "+ft+" "+nowT+" "+cq.Str(id)+" "+cq.UParam(p), cq.Err(err, isCtxErr))
-	case x < 57:
-		id := h.pickId()
+	case 2:
+		id := o.id
 		h.faulty.failNext = fault
 		err := h.obs.Cancel(ctx, id)
 		h.faulty.failNext = false
 		h.emit("HCancel "+ft+" "+nowT+" "+cq.Str(id), cq.Err(err, isCtxErr))
-	case x < 65:
-		id := h.pickId()
+	case 3:
+		id := o.id
 		h.faulty.failNext = fault
 		err := h.obs.MarkAsDispatched(ctx, id)
 		h.faulty.failNext = false
 		h.emit("HDispatch "+ft+" "+nowT+" "+cq.Str(id), cq.Err(err, isCtxErr))
-	case x < 73:
+	case 4:
 		h.faulty.failNext = fault
 		h.obs.StartTimer(ctx)
 		h.faulty.failNext = false
 		h.started = true
 		h.emit("HStart "+ft+" "+nowT, "ROk")
-	case x < 78:
+	case 5:
 		h.obs.StopTimer()
 		h.started = false
 		h.emit("HStop", "ROk")
-	case x < 88:
+	case 6:
 		// advance, often exactly to the head's time
-		if t, err := h.core.GetNext(ctx); err == nil && h.r.Intn(3) != 0 && t.ScheduledAt.After(h.now) {
+		if t, err := h.core.GetNext(ctx); err == nil && o.toHead && t.ScheduledAt.After(h.now) {
 			h.now = t.ScheduledAt
 		} else {
-			h.now = h.now.Add(time.Duration(1+h.r.Intn(40)) * time.Second)
+			h.now = h.now.Add(time.Duration(o.secs) * time.Second)
 		}
 		h.clock.Set(h.now)
 		h.emit("HAdvance "+cq.Time(h.now), "ROk")
@@ -282,6 +318,45 @@ func (h *hookRun) step(faults bool) {
 	}
 }
 
+// opDomain: every operation over the small domains (3 times x priorities, the known ids), for enumeration
+func (h *hookRun) opDomain(full bool, maxIds int) []hop {
+	var ops []hop
+	prios := []option.Option[int]{option.None[int](), option.Some(-1), option.Some(1)}
+	if full {
+		prios = append(prios, option.Some(0))
+	}
+	for k := 1; k <= 3; k++ {
+		for _, pr := range prios {
+			ops = append(ops, hop{kind: 0, p: def.TaskUpdateParam{WorkId: option.Some("w"), ScheduledAt: option.Some(h.timeAt(k)), Priority: pr}})
+		}
+	}
+	ids := h.known
+	if len(ids) > maxIds {
+		ids = ids[:maxIds]
+	}
+	for _, id := range ids {
+		for k := 1; k <= 3; k++ {
+			ops = append(ops, hop{kind: 1, id: id, p: def.TaskUpdateParam{ScheduledAt: option.Some(h.timeAt(k))}})
+			if full {
+				ops = append(ops, hop{kind: 1, id: id, p: def.TaskUpdateParam{ScheduledAt: option.Some(h.timeAt(k)), Priority: option.Some(k - 2)}})
+			}
+		}
+		for _, pr := range []int{-1, 0, 1} {
+			ops = append(ops, hop{kind: 1, id: id, p: def.TaskUpdateParam{Priority: option.Some(pr)}})
+		}
+		ops = append(ops, hop{kind: 2, id: id}, hop{kind: 3, id: id})
+	}
+	ops = append(ops, hop{kind: 4}, hop{kind: 5}, hop{kind: 6, toHead: true, secs: 40}, hop{kind: 6, secs: 40}, hop{kind: 7})
+	if full {
+		// a failing look-up inside the re-arming of each kind of mutation
+		ops = append(ops, hop{kind: 4, fault: true}, hop{kind: 7, fault: true})
+		for _, id := range ids[:min(1, len(ids))] {
+			ops = append(ops, hop{kind: 2, id: id, fault: true}, hop{kind: 3, id: id, fault: true})
+		}
+	}
+	return ops
+}
+
 func hookMain(args []string) {
 	fs := flag.NewFlagSet("hook", flag.ExitOnError)
 	seed := fs.Int64("seed", 1, "PRNG seed")
@@ -292,10 +367,72 @@ func hookMain(args []string) {
 	concurrent := fs.Bool("concurrent", false, "sequential prefix, then 2-3 goroutines mutating shared tasks at once; the state at quiescence is judged (cases : list (bool * hobs))")
 	out := fs.String("out", "", "output .v")
 	statsOut := fs.String("stats", "", "stats json")
+	exhaustive := fs.Int("exhaustive", 0, "depth: after a drawn prefix of -len operations, EVERY sequence of that many operations over the small domains is run (-n = number of prefixes)")
+	maxIds := fs.Int("max-ids", 3, "with -exhaustive: how many of the known ids the enumerated operations range over")
+	fullDomain := fs.Bool("full-domain", false, "with -exhaustive: the larger operation domain (priority 0, time+priority updates, faults)")
 	_ = fs.Parse(args)
 	r := rand.New(rand.NewSource(*seed))
 	stats := map[string]int{}
 	var hashes, samples, cases []string
+	if *exhaustive > 0 {
+		mk := func() (*hookRun, *sut) {
+			clock := vclock.New(cq.Epoch)
+			h := &hookRun{r: r, clock: clock, now: cq.Epoch, stats: stats}
+			s := newSut(*impl, clock, &h.idCtr, "")
+			h.core = s.repo
+			h.faulty = &faultyRepo{Repository: s.repo}
+			h.ht = repository.NewMutationHookTimer()
+			h.ht.VerifSetClock(clock)
+			h.obs = repository.New(h.faulty, h.ht)
+			return h, s
+		}
+		for k := 0; k < *n; k++ {
+			// the prefix is drawn once, then replayed before every enumerated suffix
+			h0, s0 := mk()
+			var prefix []hop
+			for i := 0; i < *length; i++ {
+				o := h0.genOp(false)
+				prefix = append(prefix, o)
+				h0.apply(o)
+			}
+			s0.closer()
+			var rec func(done []hop, depth int)
+			rec = func(done []hop, depth int) {
+				h, s := mk()
+				for _, o := range prefix {
+					h.apply(o)
+				}
+				for _, o := range done {
+					h.apply(o)
+				}
+				if depth == 0 {
+					c := " [" + strings.Join(h.out, ";\n  ") + "]"
+					cases = append(cases, c)
+					hashes = append(hashes, shortHash(c))
+					stats["exhaustive:sequences"]++
+					s.closer()
+					return
+				}
+				dom := h.opDomain(*fullDomain, *maxIds)
+				s.closer()
+				for _, o := range dom {
+					rec(append(append([]hop{}, done...), o), depth-1)
+				}
+			}
+			rec(nil, *exhaustive)
+			stats["exhaustive:prefixes"]++
+		}
+		samples = append(samples, cases[0])
+		stats["cases"] = len(cases)
+		var b strings.Builder
+		b.WriteString("From GK Require Import SysCheck.\nOpen Scope string_scope.\nOpen Scope list_scope.\nOpen Scope Z_scope.\n")
+		b.WriteString("Definition cases : list hhist := [\n" + strings.Join(cases, ";\n") + "\n].\n")
+		if err := os.WriteFile(*out, []byte(b.String()), 0o644); err != nil {
+			panic(err)
+		}
+		writeStats(*statsOut, stats, hashes, samples)
+		return
+	}
 	for k := 0; k < *n; k++ {
 		clock := vclock.New(cq.Epoch)
 		h := &hookRun{r: r, clock: clock, now: cq.Epoch, stats: stats}
